@@ -10,7 +10,7 @@ SYMS = {
     "d": ([46], 46), "p": ([43], 43), "1": ([49], 49), "t": ([9], 9), "m": ([13], 13),
     "w": ([115], 115), "j": ([107], 107), "f": ([0xC5, 0xBF], 0x17F), "g": ([0xE2, 0x84, 0xAA], 0x212A), "W": ([83], 83),
     "v": ([0xE2, 0x85, 0xB7], 0x2177), "V": ([0xE2, 0x85, 0xA7], 0x2167),
-    "u": ([0xA9], 0xFFFD),
+    "u": ([0xA9], 0xFFFD), "Q": ([96], 96),
     "G": ([0xCE, 0xB1], 0x3B1), "J": ([0xF0, 0x9F, 0x98, 0x80], 0x1F600), "T": ([0xC3], 0xFFFD), "O": ([0xCE, 0xA9], 0x3A9),
 }
 
@@ -34,7 +34,9 @@ def unicode_family():
             {"id": "U1", "rules": {"Root": [P(0, "[\\p{Greek}A-Z]+"), P(1, "\\p{Cyrillic}"), P(2, "(?s).")]}},
             {"id": "U2", "rules": {"Root": [P(0, "[^\\x00-\\x7F]+"), P(1, "a")]}},
             {"id": "U3", "rules": {"Root": [P(0, "[\\x{80}-\\x{10FFFF}]"), P(1, "\\P{Greek}"), P(2, "(?s).")]}},
-            {"id": "U4", "rules": {"Root": [P(0, "[\\p{Greek}\\p{Cyrillic}]+a?"), P(1, "[^a]")]}}], list("aAGOJexT")
+            {"id": "U4", "rules": {"Root": [P(0, "[\\p{Greek}\\p{Cyrillic}]+a?"), P(1, "[^a]")]}},
+            {"id": "U5", "rules": {"Root": [P(0, "[^\u00e9a]+"), P(1, "(?s).")]}},
+            {"id": "U6", "rules": {"Root": [P(0, "a[^\u03b1\u00e9]*"), P(1, "\\P{Greek}+"), P(2, "(?s).")]}}], list("aAGOJexT")
 
 
 def alpha(names):
@@ -133,6 +135,9 @@ def curated():
     # an ELIDED rule that can match the empty string, followed by a rule that would match: the empty match is still an error
     add({"Root": [rule("a"), rule("\\s*", True), rule("b")]})
     add({"Root": [rule("a", act="push", state="S1"), rule("c")], "S1": [rule("[ \\t]*", True), rule("b", act="pop")]})
+    # a back-reference state that pushes a child state with fewer rules, which evaluates a back-reference of its own and leaves
+    # through Return(): the parent's back-reference rule (at a higher index) is tried next
+    add({"Root": [named("Open", "(a+)b", "push", "S1"), rule("c")], "S1": [rule("c"), rule("\\s+", True), named("End", "\\1", "pop"), named("Open2", "(b)", "push", "S2")], "S2": [named("Ref", "\\1"), RET]})
     # a pattern that starts with ^ and has a top-level alternation: every alternative is anchored at the current position
     add({"Root": [rule("^a|b"), rule("c"), rule("\\s+", True)]})
     add({"Root": [rule("\\Aa|c"), rule("(?m)^b|a"), rule("(?s).")]})
